@@ -1,4 +1,5 @@
 import CGV.Props.C03
+import CGV.Props.C03Step
 #print axioms CGV.C03.C03_translated_compatible
 #print axioms CGV.C03.C03_compatible_iff_legacy
 #print axioms CGV.C03.C03_compatible_iff_nonlegacy
@@ -12,3 +13,6 @@ import CGV.Props.C03
 #print axioms CGV.restore_aux
 #print axioms CGV.edgesFrom_inv
 #print axioms CGV.gen_compatible_eq
+#print axioms CGV.C03.addEdge_hasEdge
+#print axioms CGV.C03.applyCut_hasEdge
+#print axioms CGV.C03.C03_step_adjacency
